@@ -167,11 +167,12 @@ def t_document(T, tier):
 
         def run(it, ver=ver):
             del calls[:]
-            vs = [SVal(it.ctx.fresh('v%d' % i, smt.VAL)) for i in range(6)]
+            vs = [SVal(it.ctx.fresh('v%d' % i, smt.VAL)) for i in range(8)]
             gcls = w.class_ref(extract.module('hszinc.grid'), 'Grid')
             g = it.call(gcls, [], {'version': ver, 'metadata': {'m1': vs[0], 'm2': vs[1]}, 'columns': [('c1', {'u': vs[2]}), ('c2', {})]})
             it.call_method(g, 'append', [{'c1': vs[3], 'c2': vs[4]}])
             it.call_method(g, 'append', [{'c1': vs[5]}])
+            it.call_method(g, 'append', [{'c2': vs[6], 'c1': vs[7]}])       # a full row whose key order is not the column order
             it.ctx.witness_fn = lambda model: {'kind': 'document', 'version': ver}
             f = w.function(MOD, 'dump_grid')
             out = it.call(f, [g])
@@ -190,12 +191,12 @@ def t_document(T, tier):
             it.ctx.oblige('dump_grid/ensures.one_column_object_per_column_in_order', z3.BoolVal(bool(okc)))
             rows = doc.get('rows')
             # a null cell may be spelled null or left out (the reference reader reads a missing column as null)
-            okr = isinstance(rows, list) and len(rows) == 2 and rows[0] == {'c1': ('ENC', vs[3]), 'c2': ('ENC', vs[4])} \
-                and rows[1] in ({'c1': ('ENC', vs[5]), 'c2': ('ENC', None)}, {'c1': ('ENC', vs[5])})
+            okr = isinstance(rows, list) and len(rows) == 3 and rows[0] == {'c1': ('ENC', vs[3]), 'c2': ('ENC', vs[4])} \
+                and rows[1] in ({'c1': ('ENC', vs[5]), 'c2': ('ENC', None)}, {'c1': ('ENC', vs[5])}) and rows[2] == {'c1': ('ENC', vs[7]), 'c2': ('ENC', vs[6])}
             it.ctx.oblige('dump_grid/ensures.one_object_per_row_cells_keyed_by_column', z3.BoolVal(bool(okr)))
             gv = g.fields['_version']
             it.ctx.oblige('dump_grid/ensures.every_value_encoded_under_the_grid_version', z3.BoolVal(bool(calls) and all(v is gv for _, v in calls)))
-            it.ctx.oblige('dump_grid/frame.grid_unchanged', z3.BoolVal(len(g.fields['_row']) == 2 and list(g.fields['metadata'].fields['_order']) == ['m1', 'm2']
+            it.ctx.oblige('dump_grid/frame.grid_unchanged', z3.BoolVal(len(g.fields['_row']) == 3 and list(g.fields['metadata'].fields['_order']) == ['m1', 'm2']
                                                                            and list(g.fields['column'].fields['_order']) == ['c1', 'c2']))
         T.explore(w, run, 'ver=%s' % ver)
     # composite values: list / dict / nested grid go through dump_scalar recursively with the same version
